@@ -49,3 +49,22 @@ Definition rexec (t : list route) (c : rcmd) : option (list route) :=
   end.
 Fixpoint rexec_all (t : list route) (cs : list rcmd) : option (list route) :=
   match cs with [] => Some t | c :: r => match rexec t c with Some t' => rexec_all t' r | None => None end end.
+
+(* ---- several VRFs (IOS): the destination id carries the VRF (id / 1000); old routes are removed only in VRFs for
+   which the target has routes ("No IPv4 routing specified for VRF X, leaving untouched") ---- *)
+Definition vrf_of (r : route) : nat := dst r / 1000.
+Definition vrf_managed (m : script) (r : route) : bool := existsb (fun b => Nat.eqb (vrf_of b) (vrf_of r)) (listB m).
+Definition diff_croutes_vrf (m : script) : list rcmd :=
+  add_cmds (drops m) (adds m) ++ del_cmds (filter (vrf_managed m) (drops m)) (replaced (drops m) (adds m)).
+
+(* IOS: several routes to one destination are allowed *)
+Definition radd_ios (t : list route) (r : route) : option (list route) :=
+  if has_route t r then None else Some (t ++ [r]).
+Definition rexec_ios (t : list route) (c : rcmd) : option (list route) :=
+  match c with
+  | RAdd r => radd_ios t r
+  | RDel r => rdel t r
+  | RRepl o n => match rdel t o with Some t' => radd_ios t' n | None => None end
+  end.
+Fixpoint rexec_all_ios (t : list route) (cs : list rcmd) : option (list route) :=
+  match cs with [] => Some t | c :: r => match rexec_ios t c with Some t' => rexec_all_ios t' r | None => None end end.
